@@ -487,7 +487,7 @@ static uint64_t fmix64(uint64_t k)
 	return k;
 }
 static uint64_t le64(const uint8_t *p) { return (uint64_t)le32(p) | ((uint64_t)le32(p + 4) << 32); }
-void ref_murmur3_x64_128(const void *data, size_t len, uint64_t seed, uint8_t out[16])
+void ref_murmur3_x64_128_ext(const void *data, size_t len, uint64_t seed, uint64_t len_offset, uint8_t out[16])
 {
 	const uint8_t *p = data;
 	const uint64_t c1 = 0x87c37b91114253d5ULL, c2 = 0x4cf5ad432745937fULL;
@@ -507,12 +507,14 @@ void ref_murmur3_x64_128(const void *data, size_t len, uint64_t seed, uint8_t ou
 	if (r > 8) { k2 *= c2; k2 = rol64(k2, 33); k2 *= c1; h2 ^= k2; }
 	for (unsigned i = (r > 8 ? 8 : r); i > 0; i--) k1 ^= (uint64_t)t[i - 1] << (8 * (i - 1));
 	if (r > 0) { k1 *= c1; k1 = rol64(k1, 31); k1 *= c2; h1 ^= k1; }
-	h1 ^= (uint64_t)len; h2 ^= (uint64_t)len;
+	h1 ^= (uint64_t)len + len_offset; h2 ^= (uint64_t)len + len_offset;
 	h1 += h2; h2 += h1;
 	h1 = fmix64(h1); h2 = fmix64(h2);
 	h1 += h2; h2 += h1;
 	put_le64(out, h1); put_le64(out + 8, h2);
 }
+
+void ref_murmur3_x64_128(const void *data, size_t len, uint64_t seed, uint8_t out[16]) { ref_murmur3_x64_128_ext(data, len, seed, 0, out); }
 
 /* ---------------- multi-hash ---------------- */
 /* Stream padded SHA-style to a multiple of 1024 bytes (0x80, zeros, 64-bit BE bit length in the
@@ -520,7 +522,7 @@ void ref_murmur3_x64_128(const void *data, size_t len, uint64_t seed, uint8_t ou
  * segment's word j/16 of its 64-byte SHA block. The 16 segments are hashed with the raw
  * compression function (no further padding). The digest matrix D[word][segment] (native
  * little-endian uint32, as the library documents) is then hashed with the standard hash. */
-static void mh_generic(const uint8_t *data, size_t len, uint32_t *digest, int is256)
+static void mh_generic(const uint8_t *data, size_t len, uint64_t len_offset, uint32_t *digest, int is256)
 {
 	int nw = is256 ? 8 : 5;
 	static const uint32_t i1[5] = { 0x67452301, 0xefcdab89, 0x98badcfe, 0x10325476, 0xc3d2e1f0 };
@@ -531,7 +533,7 @@ static void mh_generic(const uint8_t *data, size_t len, uint32_t *digest, int is
 	uint8_t *m = calloc(1, padded);
 	memcpy(m, data, len);
 	m[len] = 0x80;
-	put_be64(m + padded - 8, (uint64_t)(uint32_t)len * 8);
+	put_be64(m + padded - 8, ((uint64_t)len + len_offset) * 8);   /* len_offset: a multiple of 1024 bytes treated as already hashed (length field only) */
 	for (size_t b = 0; b < padded / 1024; b++) {
 		for (int s = 0; s < 16; s++) {
 			uint8_t blk[64];
@@ -546,8 +548,9 @@ static void mh_generic(const uint8_t *data, size_t len, uint32_t *digest, int is
 	ref_hash_oneshot(is256 ? REF_SHA256 : REF_SHA1, mat, 4 * nw * 16, out);
 	for (int i = 0; i < nw; i++) digest[i] = be32(out + 4 * i);
 }
-void ref_mh_sha1(const uint8_t *data, size_t len, uint32_t digest[5]) { mh_generic(data, len, digest, 0); }
-void ref_mh_sha256(const uint8_t *data, size_t len, uint32_t digest[8]) { mh_generic(data, len, digest, 1); }
+void ref_mh_sha1(const uint8_t *data, size_t len, uint32_t digest[5]) { mh_generic(data, len, 0, digest, 0); }
+void ref_mh_sha256(const uint8_t *data, size_t len, uint32_t digest[8]) { mh_generic(data, len, 0, digest, 1); }
+void ref_mh_ext(int is256, const uint8_t *data, size_t len, uint64_t len_offset, uint32_t *digest) { mh_generic(data, len, len_offset, digest, is256); }
 
 /* ---------------- rolling hash ---------------- */
 uint64_t ref_rolling_hash(const uint8_t *b, unsigned w)
